@@ -612,13 +612,25 @@ fn parse_expr_unaryop(
                         base_location,
                     ));
                 }
-                match context.module.type_registry.extract_scalar(tyl) {
-                    Some(ir::ScalarType::Bool) => Err(TyperError::UnaryOperationWrongTypes(
+                // Only numeric (non-bool) types and enums can be incremented
+                let is_incrementable = match context.module.type_registry.get_type_layer(tyl) {
+                    ir::TypeLayer::Scalar(_)
+                    | ir::TypeLayer::Vector(..)
+                    | ir::TypeLayer::Matrix(..) => {
+                        context.module.type_registry.extract_scalar(tyl)
+                            != Some(ir::ScalarType::Bool)
+                    }
+                    ir::TypeLayer::Enum(_) => true,
+                    _ => false,
+                };
+                if is_incrementable {
+                    Ok(())
+                } else {
+                    Err(TyperError::UnaryOperationWrongTypes(
                         op.clone(),
                         ErrorType::Unknown,
                         base_location,
-                    )),
-                    _ => Ok(()),
+                    ))
                 }
             }
 
